@@ -9,6 +9,8 @@ for d in sorted(os.listdir(os.path.join(V, 'seeded'))):
     wave = next(w for w in WAVES if ('wave ' + w) in m['origin'])
     v = m['verdicts']
     main = v.get(m['breaks_property'], '')
+    if 'superseded' in m:
+        main += ' *(superseded by fix 56197e4: see meta.json)*'
     rows.append((wave, d, m['breaks_property'], main.startswith('MISSED'), main, {k: x for k, x in v.items() if k != m['breaks_property']}))
 left = [r[1] for r in rows if 'left so' in r[4]]
 per = {w: (sum(1 for r in rows if r[0] == w), sum(1 for r in rows if r[0] == w and r[3])) for w in WAVES}
@@ -39,7 +41,11 @@ property's check as it stood when the change arrived; %d were missed (%s).
 Every miss was a gap in workload or oracle rather than in schedule search and
 was closed by extending the check (never by special-casing the change), with
 %s; %d of the %d
-are now reported by the quick tier of the owning check. Two of the extensions found defects in the
+are now reported by the quick tier of the owning check (`seedall.sh` re-runs
+them all; three wave-3/4 changes to `ProcessParallel` are marked *superseded*
+there - fix 56197e4 replaced the code they patch, two no longer apply and one
+no longer changes behaviour - and a fourth was re-anchored, context lines
+only). Two of the extensions found defects in the
 *unmodified* library (section 6 rows 27 and 28); verifying the wave-4 imports
 showed that one earlier repair had made an existing test flaky (row 14).
 
